@@ -51,9 +51,9 @@ CHECKS = {
         "Trusted: pv/ref_chart.py. LR is exercised on tables that are deterministic without strategies and on the statically prioritised expression grammar. Known finding D18 (GLR heads at different positions share one error span) is tolerated only for the ordering/overlap clause in parses where the strategy was observed to be invoked for one error on heads at different positions.",
         "DESIGN.md section 6/C11"),
     "C12": (
-        "model-based PBT over generated histories on one grammar directory (builds with varying options, edits, touches with a logical clock, pglr compile, cache deletion, truncation to generated byte prefixes, injected crashes during the cache write) compared with builds from pristine copies without cache; fault enumeration over byte prefixes of reference caches; save/load round-trip PBT",
-        "Exploration: generated histories of 3-12 operations over a root grammar importing a second file (3 x 3 variants incl. conflicts and string-vs-regex lexical ambiguity); after every build the serialised table and the outcomes of 15 probe inputs must equal those of the same class/options built from a pristine copy of the current files with no cache - whether the cache is absent, fresh, older than any grammar file, truncated, or left by a crash after k bytes of the write (open() shadowed in parglare.tables.persist); every 13th (thorough: every) byte prefix of two reference caches is enumerated as on-disk state; round trip: load(save(t)) keeps serialised actions/gotos, finish flags, conflicts and dynamic marks and a second save is byte-identical.",
-        "Trusted: crashes modelled as 'bytes written so far stay on disk'; mtimes set by the harness from a logical clock (never equal). Known finding D8 (options are not part of the cache key) is tolerated only for builds that load an intact, fresh cache written under different table-affecting options; every other history is strict.",
+        "model-based PBT over generated histories on one grammar directory (builds with varying options, edits of root / import / second-level import / error-example file, touches with a logical clock, pglr compile, deletion, truncation to generated byte prefixes and injected crashes during the write of the table cache .pgc and of the compiled error hints .pgec) compared with builds from pristine copies without caches; fault enumeration over byte prefixes of reference caches; save/load round-trip PBT with a lock-step walk of both automata",
+        "Exploration: generated histories of 3-12 operations over a root grammar importing a second file that imports a third (3 x 3 x 3 variants incl. conflicts and string-vs-regex lexical ambiguity), optionally with a .pge error-example file (2 variants); after every build the serialised table and the outcomes of 18 probe inputs (results, forests, error positions and SyntaxError.hint) must equal those of the same class/options built from a pristine copy of the current files with no cache - whether a cache is absent, fresh, older than any grammar file, truncated, or left by a crash after k bytes of the write (open() shadowed in parglare.tables.persist and parglare.parser); every 13th (thorough: every) byte prefix of two reference .pgc files and every prefix of two .pgec files is enumerated as on-disk state; round trip: load(save(t)) keeps serialised actions/gotos, finish flags, conflicts and dynamic marks, is the same automaton state for state, and a second save is byte-identical.",
+        "Trusted: crashes modelled as 'bytes written so far stay on disk'; mtimes set by the harness from a logical clock (never equal, and never forged so that a file edited after a cache was written looks older than it - the precondition of any mtime-keyed cache). Known findings D8 / D20 (table options / parser kind are not part of the .pgc / .pgec key) are tolerated only for builds that load an intact, fresh cache which the history wrote under different options; every other history is strict.",
         "DESIGN.md section 6/C12"),
     "C13": (
         "differential PBT: sugared grammar vs (a) parglare on an own plain-BNF expansion following the documented equivalences and (b) reference derivations of the expansion evaluated by the documented meaning; metamorphic greedy-vs-non-greedy family with recorded behaviour on an exhaustive corpus",
